@@ -45,7 +45,7 @@ func init() {
 }
 
 func runC10A(c retainCase) (bool, []string, error) {
-	file, _, err := encodeCase(c.Enc)
+	file, written, err := encodeCase(c.Enc)
 	if err != nil {
 		return false, nil, err
 	}
@@ -86,6 +86,13 @@ func runC10A(c retainCase) (bool, []string, error) {
 		cp := reflect.New(typ).Elem()
 		cp.Set(reflect.NewAt(typ, val).Elem())
 		k := &kept{v: cp, bank: rb, want: spec.AbsStrict(ts, false, cp), closeAt: -1, open: true, index: n}
+		if n < len(written) && failure == nil {
+			// "a later record never inherits field values from an earlier one": at
+			// delivery the record is what was written
+			if err := spec.Match(written[n], k.want, fmt.Sprintf("record[%d] at delivery", n)); err != nil {
+				failure = err
+			}
+		}
 		if n < len(c.CloseAt) && c.CloseAt[n] >= 0 {
 			k.closeAt = n + c.CloseAt[n]
 		}
